@@ -675,31 +675,20 @@ def r_setcur(model, rep):
 # R-DEFASSIGN: no value left over from a previous loop iteration (or never assigned) reaches a store/call/return
 # ---------------------------------------------------------------------------------------------------------
 def r_defassign(model, rep, modules, rule_id="R-DEFASSIGN"):
+    """inside a loop iteration no use may see a phi of (a value assigned earlier in this iteration | the value left over
+    from the previous iteration): the variable is assigned on some paths of the iteration only (the D3 pattern).  Plain
+    loop-carried state (node = node.parent, counters) is not reported."""
     n = 0
     for f in model.all_functions():
         if f.module.name not in modules:
             continue
         cx = facts.fctx(model, f)
-        loop_targets = set()
-        for node in ast.walk(f.node):
-            if isinstance(node, ast.For):
-                for t in ast.walk(node.target):
-                    if isinstance(t, ast.Name):
-                        loop_targets.add(t.id)
-        bad = {}
-        for ev in cx.events:
-            if ev.kind not in ("store", "call", "return", "raise"):
-                continue
-            for t in (ev.value, ev.target):
-                if t is None:
-                    continue
-                for x in T.walk(t):
-                    if x[0] == "carried" or (x[0] == "undef" and x[1] not in loop_targets):
-                        bad.setdefault(x[1], ev.lineno)
+        if not any(isinstance(x, (ast.For, ast.While)) for x in ast.walk(f.node)):
+            continue
         n += 1
-        if bad or any(isinstance(x, (ast.For, ast.While)) for x in ast.walk(f.node)):
-            rep.ob(rule_id, f.qname, not bad, site=cx.site(min(bad.values()) if bad else f.node),
-                   msg="" if not bad else "variable(s) %s may reach a use without being assigned on that path of the same loop iteration "
-                                         "(value left over from the previous iteration, or undefined)" % ", ".join(sorted(bad)))
-    if n < 5:
-        raise AnalysisError("vacuity guard: R-DEFASSIGN examined %d functions" % n)
+        bad = T.stale_in_iteration(cx.ex)
+        rep.ob(rule_id, f.qname, not bad, site=cx.site(bad[0][1] if bad else f.node),
+               msg="" if not bad else "variable(s) %s: on some path of a loop iteration the value used is not assigned in that iteration but "
+                                     "left over from the previous one" % ", ".join(sorted(set(b[0] for b in bad))))
+    if n < 3:
+        raise AnalysisError("vacuity guard: R-DEFASSIGN examined %d functions with loops" % n)
